@@ -11,7 +11,7 @@ EXPLANATION = (
     'transition stays None); substitution coverage - every name-bearing slot of the model (transition source and target, initial, '
     'memory, parent links, the parent\'s children list, the keys of the three dictionaries, the state\'s own name) is rewritten; '
     'copy_from_statechart works on a deep copy, renames before registering and registers every descendant through add_state and every '
-    'touching transition through add_transition. Decides that renaming substitutes names and nothing else; behavioural equality of runs '
+    'touching transition through add_transition; copy hooks of the model classes carry every constructor field. Decides that renaming substitutes names and nothing else; behavioural equality of runs '
     'additionally depends on C07.1 (children order changes on rename).')
 
 SLOTS = ['Transition._source', 'Transition._target', 'CompoundState.initial', 'HistoryStateMixin.memory', 'Statechart._parent values',
@@ -23,6 +23,51 @@ def check(run):
     run.guard(rules_copy, run, 'C17')
     from .c16 import rules_caches
     run.guard(rules_caches, run, 'C17', '.5')
+    run.guard(rules_copy_hooks, run)
+    # copy_from_statechart works on deepcopy(statechart): a hand-written copy hook of Statechart or of an element must give an independent object
+    from .c18 import rules_hooks
+    run.guard(rules_hooks, run, 'C17.7', ('Statechart', 'Transition', 'StateMixin', 'ContractMixin', 'ActionStateMixin', 'HistoryStateMixin', 'CompoundState', 'BasicState',
+                                          'OrthogonalState', 'FinalState', 'ShallowHistoryState', 'DeepHistoryState'),
+              ' (a deep copy sharing children lists or elements with its source is renamed together with it)')
+
+
+HOOK_FIXTURE = [('sismic/model/elements.py', "    def __repr__(self):\n        return 'Transition({!r}, {!r}, event={!r})'",
+                 "    def __deepcopy__(self, memo):\n        return Transition(self._source, self._target, self.event, self.guard, self.action)\n\n"
+                 "    def __repr__(self):\n        return 'Transition({!r}, {!r}, event={!r})'")]
+
+
+def rules_copy_hooks(run):
+    """copy_from_statechart plugs in a deep copy of the source: a hand-written copy hook on a model class that rebuilds the object from some of its
+    fields loses the others (priority, contracts, ..) in every plugged-in sub-statechart."""
+    from .common import copy_hook_gaps
+    prog = run.prog
+    r = run.rule('C17.6', 'copy hooks of the model classes (__deepcopy__ / __copy__ of Statechart, the state classes, Transition and their mixins) transfer every '
+                          'field set by the constructors')
+    def gaps(pg):
+        out = []
+        ncls = 0
+        for ci in pg.classes.values():
+            if ci.module.name.startswith('sismic.model'):
+                ncls += 1
+                out += copy_hook_gaps(pg, ci)
+        return ncls, out
+    ncls, found = gaps(prog)
+    run.floor(ncls, 12, r, 'model classes')
+    for m, missing in found:
+        run.check(not missing, r, m.short, 'the copy carries every field of the original', 'the copy is built without %s: a sub-statechart plugged in with '
+                  'copy_from_statechart loses them' % missing, m.node)
+    run.ok(r, 'sismic.model', '%d copy hook(s) on %d model classes' % (len(found), ncls), None)
+    from ..selftest.runner import apply_edits
+    from ..loader import Tree
+    from ..prog import Program
+    ov = apply_edits(HOOK_FIXTURE)
+    if ov is None:
+        run.note('C17.6: positive fixture not applicable to the current text of Transition.__repr__ (detector not re-proved on this run)')
+    else:
+        _, f2 = gaps(Program(Tree(root=run.tree.root, overlay=dict(run.tree.overlay, **ov))))
+        hit = [m for m, missing in f2 if 'priority' in missing]
+        run.floor(len(hit), 1, r, 'findings on the positive fixture (Transition.__deepcopy__ without priority)')
+        run.ok(r, 'fixture', 'detector fires on the in-memory fixture', None)
 
 
 def rules_rename(run, P='C17', ids=('.1', '.2')):
@@ -152,7 +197,20 @@ def rules_copy(run, P='C17', rid='.3'):
             run.check((cv + '.state_for(%s)' % nn) in q.unparse(a.args[0]) and (cv + '.parent_for(%s)' % nn) in q.unparse(a.args[1]), r3, ci.short,
                       'registered with its renamed name and parent', 'differs', a)
             o = [q.unparse(x) for x in q.local_origin(C, rr[0].args[1])]
-            run.check(any(x.startswith(ps[4] + '(') for x in o), r3, ci.short, 'new names come from renaming_func', 'differs: %s' % o, rr[0])
+            good = any(x.startswith(ps[4] + '(') for x in o)
+            if not good:
+                # the function applied is a local that IS renaming_func whenever that is a function (other cases - None, a mapping - are conveniences for
+                # arguments that could not be called before): every other definition of the local sits under a test on renaming_func itself
+                for x in q.local_origin(C, rr[0].args[1]):
+                    x = strip_cast(x)
+                    if isinstance(x, ast.Call) and isinstance(x.func, ast.Name) and len(x.args) == 1:
+                        defs = q.assigned_value(C, x.func.id)
+                        is_param = [(st, v) for st, v in defs if q.unparse(strip_cast(v)) == ps[4]]
+                        others = [(st, v) for st, v in defs if q.unparse(strip_cast(v)) != ps[4]]
+                        if is_param and all(any(ps[4] in a[1] + a[2] for a in guard_atoms(st)) for st, v in others) and \
+                                all(not any(a[0] == 'truthy' and a[1] == 'callable(%s)' % ps[4] for a in guard_atoms(st)) for st, v in others):
+                            good = True
+            run.check(good, r3, ci.short, 'new names come from renaming_func', 'differs: %s' % o, rr[0])
     for t in addt:
         lp = q.enclosing(t, ast.For)
         run.check(lp is not None and not [g for g in guards(t, stop=lp)], r3, ci.short, 'every collected transition is registered', 'conditional', t)
